@@ -94,6 +94,21 @@ def check(label, m, e, rng):
     both = fem.asm(form, [b0, fb])
     if abs(both - (A1 + A2)).max() > 1e-12:
         fails.append("ASM: asm(form, [cell basis, facet basis]) differs from the sum of the separate assemblies")
+    # ... also with a coefficient VECTOR as a form parameter over a partition of the cells into two subset bases (each block interpolates it on its own basis)
+    ntc = m.t.shape[1]
+    h1, h2 = np.arange(ntc // 2), np.arange(ntc // 2, ntc)
+    if len(h1) and len(h2):
+        cb = fem.CellBasis(m, b0.elem, intorder=4)
+        p1 = fem.CellBasis(m, b0.elem, intorder=4, elements=h1)
+        p2 = fem.CellBasis(m, b0.elem, intorder=4, elements=h2)
+        xk = rng.uniform(-1, 1, cb.N)
+        cform = fem.BilinearForm(lambda u, v, w: s(w["prev"]) * s(u) * s(v))
+        lform = fem.LinearForm(lambda v, w: s(w["prev"]) * s(v))
+        whole, parts = cform.assemble(cb, prev=xk), fem.asm(cform, [p1, p2], prev=xk)
+        if abs(whole - parts).max() > 1e-12:
+            fails.append("ASM: asm(form, [two subset bases], prev=vector) differs from the whole-mesh assembly by %.3e" % abs(whole - parts).max())
+        if np.abs(lform.assemble(cb, prev=xk) - fem.asm(lform, [p1, p2], prev=xk)).max() > 1e-12:
+            fails.append("ASM: linear form over a list of subset bases with a coefficient vector differs from the whole-mesh assembly")
     c1, c2 = form.elemental(b0), form.elemental(fb)
     csum = c1 + c2
     if abs(csum.tocsr() - (A1 + A2)).max() > 1e-12 or not np.allclose(csum.toarray(), (A1 + A2).toarray(), atol=1e-12):
